@@ -13,7 +13,7 @@ LEVEL = "exploration"
 RULE = ("1-4 concurrent operations from {read, read_descriptor, write(with response), write_descriptor, start_notify, pair, unpair, clear_cache, "
         "get_services, device_connect, device_disconnect} over addresses {A,B} x handles {1,2}; device replies = orderings of items from {matching "
         "response, same type for foreign address / foreign handle, GATT error matching / foreign address / foreign handle, connection change "
-        "for A / B (connected or not), service chunks, nothing}; all permutations for small sets, seeded random otherwise; caller cancellation "
+        "for A / B (connected or not; A, B and the two handles range over default and boundary values: 0, 2^48-1, neighbours, 2^32-1, 65535/65536), service chunks, nothing}; all permutations for small sets, seeded random otherwise; caller cancellation "
         "and connect timeouts included. Oracle: per-operation matching model over the recorded arrival history (first deciding arrival, exact "
         "completion instant, exact timeout instant, DISCONNECT on the wire before the connect TimeoutAPIError), then leftover probes: matching "
         "traffic after the end must reach no callback of a finished operation and the handler table must hold only the documented survivors. "
@@ -27,6 +27,21 @@ BUDGET_S = {"quick": 300, "thorough": 3000}
 MIN_EVALS = {"quick": 1500, "thorough": 30000}
 
 A, B = 0x112233445566, 0xAABBCCDDEEFF
+H1, H2 = 1, 2
+DEFAULT_VALUES = (0x112233445566, 0xAABBCCDDEEFF, 1, 2)
+# boundary values of the two identifiers an operation is matched by: 48-bit addresses (0, max, neighbours, equal low/high halves) and 32-bit handles
+VALUE_SETS = [DEFAULT_VALUES, (0, 1, 0, 1), (2**48 - 1, 2**48 - 2, 2**32 - 1, 2**32 - 2), (0x112233445566, 0x112233445567, 65535, 65536),
+              (1 << 32, 1, 1 << 16, 1), (0xFFFFFFFF, 0xFFFFFFFF00000000, 255, 256)]
+
+
+def set_values(vals: Any) -> None:
+    """Choose the concrete addresses / handles that 'A', 'B', 'handle 1', 'handle 2' stand for in the next case."""
+    global A, B, H1, H2
+    A, B, H1, H2 = (int(x) for x in vals)
+
+
+def other_h(h: int) -> int:
+    return H2 if h == H1 else H1
 OPS = ("read", "read_descriptor", "write", "write_descriptor", "start_notify", "pair", "unpair", "clear_cache", "get_services",
        "device_connect", "device_disconnect")
 HANDLE_OPS = {"read": "BluetoothGATTReadResponse", "read_descriptor": "BluetoothGATTReadResponse", "write": "BluetoothGATTWriteResponse",
@@ -54,10 +69,10 @@ def build_msg(pb: Any, item: list[Any], ops: list[dict[str, Any]], n: int) -> An
     if kind == "conn":
         return pb.BluetoothDeviceConnectionResponse(address=item[1], connected=bool(item[2]), mtu=23 + n, error=0 if item[2] else 8)
     op = ops[item[1]]
-    a, h, name = op["addr"], op.get("handle", 1), op["op"]
+    a, h, name = op["addr"], op.get("handle", H1), op["op"]
     if kind in ("T", "T_fa", "T_fh"):
         aa = other(a) if kind == "T_fa" else a
-        hh = (3 - h) if kind == "T_fh" else h
+        hh = other_h(h) if kind == "T_fh" else h
         if name in HANDLE_OPS:
             t = HANDLE_OPS[name]
             if t == "BluetoothGATTReadResponse":
@@ -74,7 +89,7 @@ def build_msg(pb: Any, item: list[Any], ops: list[dict[str, Any]], n: int) -> An
         return pb.BluetoothGATTGetServicesResponse(address=other(a) if len(item) > 2 and item[2] else a,
                                                    services=[pb.BluetoothGATTService(uuid=[n, n + 1], handle=n)])
     if kind in ("err", "err_fa", "err_fh"):
-        return pb.BluetoothGATTErrorResponse(address=other(a) if kind == "err_fa" else a, handle=(3 - h) if kind == "err_fh" else h, error=n)
+        return pb.BluetoothGATTErrorResponse(address=other(a) if kind == "err_fa" else a, handle=other_h(h) if kind == "err_fh" else h, error=n)
     if kind == "data":
         return pb.BluetoothGATTNotifyDataResponse(address=a, handle=h, data=bytes([n]))
     raise ValueError(kind)
@@ -82,7 +97,7 @@ def build_msg(pb: Any, item: list[Any], ops: list[dict[str, Any]], n: int) -> An
 
 def decide(op: dict[str, Any], msg: Any, acc: list[Any]) -> Any:
     """Matching model: does this arrival decide the operation?  None = no effect."""
-    name, a, h = op["op"], op["addr"], op.get("handle", 1)
+    name, a, h = op["op"], op["addr"], op.get("handle", H1)
     t = type(msg).__name__
     if name in HANDLE_OPS:
         if t == HANDLE_OPS[name] and msg.address == a and msg.handle == h:
@@ -124,6 +139,7 @@ def run_case(case: dict[str, Any]) -> dict[str, Any]:
     from aioesphomeapi import api_pb2 as pb
 
     ops = case["ops"]
+    set_values(case.get("values") or DEFAULT_VALUES)
     with Sim() as sim:
         cfg = DeviceConfig()
         for n in ("BluetoothDeviceRequest", "BluetoothGATTGetServicesRequest", "BluetoothGATTReadRequest", "BluetoothGATTReadDescriptorRequest",
@@ -155,7 +171,7 @@ def run_case(case: dict[str, Any]) -> dict[str, Any]:
         t0 = sim.clock
 
         def start(i: int, op: dict[str, Any]) -> Any:
-            a, h, name = op["addr"], op.get("handle", 1), op["op"]
+            a, h, name = op["addr"], op.get("handle", H1), op["op"]
             if name == "read":
                 return cli.bluetooth_gatt_read(a, h, timeout=TIMEOUT)
             if name == "read_descriptor":
@@ -213,8 +229,8 @@ def run_case(case: dict[str, Any]) -> dict[str, Any]:
                 dconn.send_msg(build_msg(pb, ["T", i], ops, n))
                 dconn.send_msg(build_msg(pb, ["err", i], ops, n))
             if op["op"] == "start_notify":
-                a_, h_ = op["addr"], op.get("handle", 1)
-                for aa, hh, dd in ((a_, h_, n), (a_, 3 - h_, n + 100), (other(a_), h_, n + 101), (a_, h_, n + 102)):
+                a_, h_ = op["addr"], op.get("handle", H1)
+                for aa, hh, dd in ((a_, h_, n), (a_, other_h(h_), n + 100), (other(a_), h_, n + 101), (a_, h_, n + 102)):
                     dconn.send_msg(pb.BluetoothGATTNotifyDataResponse(address=aa, handle=hh, data=bytes([dd % 256])))
             dconn.send_msg(build_msg(pb, ["conn", op["addr"], 0], ops, n))
         sim.run_for(0.01)
@@ -328,7 +344,7 @@ def judge(case: dict[str, Any], o: dict[str, Any]) -> list[tuple[str, str]]:
                         survivors["BluetoothGATTNotifyDataResponse"] += 1
         if name == "start_notify" and rec.outcome == "ok":
             want = [bytes(m_.data) for sq, _, m_ in o["arrivals"] if sq > rec.seq_ret and type(m_).__name__ == "BluetoothGATTNotifyDataResponse"
-                    and m_.address == op["addr"] and m_.handle == op.get("handle", 1)]
+                    and m_.address == op["addr"] and m_.handle == op.get("handle", H1)]
             gotd = [ev[2] for _, _, ev in o["cb_log"][i] if ev[0] == "notify"]
             if gotd != want:
                 out.append(("C16/start_notify/notify-data-mismatch", f"{tag}: notify callback received {gotd}, matching notifications carried {want}"))
@@ -352,17 +368,20 @@ def judge(case: dict[str, Any], o: dict[str, Any]) -> list[tuple[str, str]]:
     return out
 
 
-REPLY_ALPHABET = [["T", 0], ["T_fa", 0], ["T_fh", 0], ["err", 0], ["err_fa", 0], ["err_fh", 0], ["conn", A, 0], ["conn", B, 1], ["conn", B, 0]]
+def reply_alphabet() -> list[list[Any]]:
+    return [["T", 0], ["T_fa", 0], ["T_fh", 0], ["err", 0], ["err_fa", 0], ["err_fh", 0], ["conn", A, 0], ["conn", B, 1], ["conn", B, 0]]
 
 
 def gen_case(rng: Any) -> dict[str, Any]:
+    vals = rng.choice(VALUE_SETS) if rng.random() < 0.5 else DEFAULT_VALUES
+    set_values(vals)
     nops = rng.randint(1, 4)
     ops = []
     for _ in range(nops):
         name = rng.choice(OPS)
         op: dict[str, Any] = {"op": name, "addr": rng.choice([A, B])}
         if name in HANDLE_OPS:
-            op["handle"] = rng.choice([1, 2])
+            op["handle"] = rng.choice([H1, H2])
         if name == "device_connect":
             op["flags"] = rng.choice([0, 4])
             op["cache"] = rng.random() < 0.3
@@ -384,7 +403,7 @@ def gen_case(rng: Any) -> dict[str, Any]:
             replies.append(["svc", i, rng.randrange(2)])
         else:
             replies.append(["T", i])
-    case: dict[str, Any] = {"ops": ops, "replies": replies, "answer_disconnect": rng.random() < 0.5}
+    case: dict[str, Any] = {"ops": ops, "replies": replies, "answer_disconnect": rng.random() < 0.5, "values": list(vals)}
     if rng.random() < 0.2:
         case["cancel"] = {str(rng.randrange(nops)): rng.choice([0.0, 0.015, 0.035, 0.5])}
     return case
@@ -422,35 +441,40 @@ def shard(ctx: Ctx) -> None:
         case = gen_case(rng)
         if ctx.mine(i):
             one(ctx, case, "random")
-    # single operation x orderings of reply subsets
+    # single operation x orderings of reply subsets (over every set of boundary addresses / handles)
     idx = 0
     sizes = (1, 2, 3, 4) if ctx.thorough else (1, 2)
-    for name in OPS:
-        base: dict[str, Any] = {"op": name, "addr": A}
-        if name in HANDLE_OPS:
-            base["handle"] = 1
-        for k in sizes:
-            for perm in itertools.permutations(REPLY_ALPHABET, k):
-                idx += 1
-                if k >= 3 and not ctx.thorough:
+    for vi, vals in enumerate(VALUE_SETS):
+        set_values(vals)
+        for name in OPS:
+            base: dict[str, Any] = {"op": name, "addr": A}
+            if name in HANDLE_OPS:
+                base["handle"] = H1
+            for k in sizes:
+                if vi and k > 2:
                     continue
-                if k == 4 and idx % 7:
-                    continue
-                if ctx.mine(idx):
-                    one(ctx, {"ops": [base], "replies": [list(p) for p in perm], "answer_disconnect": idx % 2 == 0}, "single-op-permutations")
+                for perm in itertools.permutations(reply_alphabet(), k):
+                    idx += 1
+                    if k >= 3 and not ctx.thorough:
+                        continue
+                    if k == 4 and idx % 7:
+                        continue
+                    if ctx.mine(idx):
+                        one(ctx, {"ops": [base], "replies": [list(p) for p in perm], "answer_disconnect": idx % 2 == 0, "values": list(vals)}, "single-op-permutations")
+    set_values(DEFAULT_VALUES)
     cleanup_inside_state_callback(ctx)
     # cancellation of every operation at several instants, followed by matching traffic (leftover probe)
     for name in OPS:
         for at in (0.0, 0.005, 0.5):
             idx += 1
             if ctx.mine(idx):
-                base = {"op": name, "addr": A, "handle": 1}
+                base = {"op": name, "addr": A, "handle": H1}
                 one(ctx, {"ops": [base], "replies": [["T_fa", 0]], "cancel": {"0": at}}, "cancel-then-matching-traffic")
         # cancel in the very loop iteration in which the deciding answer arrives, ahead of it and behind it
         for after_io in (False, True):
             idx += 1
             if ctx.mine(idx):
-                base = {"op": name, "addr": A, "handle": 1}
+                base = {"op": name, "addr": A, "handle": H1}
                 one(ctx, {"ops": [base], "replies": [["T", 0], ["T", 0]], "cancel": {"0": 0.01}, "cancel_after_io": after_io}, "cancel-races-answer")
 
 
